@@ -154,14 +154,14 @@ func handleCompositeLiteral(or *obfRand, isPointer bool, node *ast.CompositeLit,
 	var arrayLen int64
 	switch y := info.TypeOf(node.Type).(type) {
 	case *types.Array:
-		if y.Elem() != byteType {
+		if !types.Identical(y.Elem(), byteType) {
 			return nil
 		}
 
 		arrayLen = y.Len()
 
 	case *types.Slice:
-		if y.Elem() != byteType {
+		if !types.Identical(y.Elem(), byteType) {
 			return nil
 		}
 
